@@ -204,6 +204,7 @@ def run(ck, rng):
             ck.violation("SameAsSequential", dict(sig, part="vs_sequential_run"), dict(case, parallel=got, sequential=seq_cache[key]))
             continue
         ck.traces += 1
+    _shared_cache(ck, rng)
     # ---- parallel chain / linearization / finite differences vs sequential
     _chains(ck, rng)
     _fd(ck, rng)
@@ -300,3 +301,93 @@ def _fd(ck, rng):
         n += 1
         ck.traces += 1
     ck.extra["parallel_fd_runs"] = n
+
+
+def sc_cfg(nw, inputs, *, sched=False):
+    s = f"CONSTANTS NWorkers = {nw}\n Inputs = {{{', '.join(map(str, inputs))}}}\nSPECIFICATION Spec\n"
+    for i in ("EntriesOwnData", "GetOwnData", "SameAsSequential", "NoDuplicates"):
+        s += f"INVARIANT {i}\n"
+    s += "INVARIANT Schedules\n" if sched else "VIEW View\nPROPERTY Live\n"
+    return s
+
+
+def _shared_cache(ck, rng):
+    """SharedCache.tla: every interleaving of the cache calls of workers sharing one full cache.  Each
+    public cache method is atomic (cache lock), so performing the calls in the model's order on the
+    real cache object IS the schedule."""
+    from gemseo.caches.hdf5_cache import HDF5Cache
+    from gemseo.caches.memory_full_cache import MemoryFullCache
+
+    ck.tlc("SharedCache", sc_cfg(2, [1, 2]), workers=2, deadlock=False,
+           require_actions=("Get", "CacheOutputs", "CacheJacobian"))
+    ck.tlc("SharedCache", sc_cfg(3, [1, 2]), workers=4, deadlock=False, timeout=900)
+    r = ck.tlc("SharedCache", sc_cfg(2, [1, 2], sched=True), workers=1, deadlock=False, count=False, coverage=False)
+    scheds = []
+    for v in r.printed():
+        if isinstance(v, tuple) and v and v[0] == "SCHED":
+            scheds.append((tuple(seq(v[1])), tuple(v[2]), tuple((e["in"], e["out"], e["jac"]) for e in seq(v[3]))))
+    scheds = sorted(set(scheds))
+    if not scheds:
+        raise MachineryError("SharedCache printed no schedule")
+    inp = lambda v: {"a": np.array([float(v), 1.0]), "b": np.array([2.0 * v])}  # noqa: E731
+    out = lambda v: {"y": np.array([10.0 * v, 1.0 + v])}  # noqa: E731
+    jac = lambda v: {"y": {"a": np.array([[1.0 * v, 0.0], [0.0, 2.0 * v]]), "b": np.array([[3.0 * v], [4.0]])}}  # noqa: E731
+
+    def own(entry, v):
+        """0 if the group is absent, v if it is v's data, -1 otherwise."""
+        o = entry.outputs
+        j = entry.jacobian
+        ro = 0 if not o else (v if np.array_equal(o["y"], out(v)["y"]) else -1)
+        rj = 0 if not j else (v if all(np.array_equal(np.asarray(j["y"][k]), jac(v)["y"][k]) for k in ("a", "b")) else -1)
+        return ro, rj
+
+    n = 0
+    kinds = [("MemoryFullCache", lambda: MemoryFullCache()), ("MemoryFullCacheLocal", lambda: MemoryFullCache(is_memory_shared=False))]
+    for kind, mk in kinds + [("HDF5Cache", None)]:
+        if mk is None:
+            todo = rng.sample(scheds, min(len(scheds), 120 if ck.thorough else 25))
+        elif kind.endswith("Local") and not ck.thorough:
+            todo = rng.sample(scheds, min(len(scheds), 250))
+        else:
+            todo = scheds
+        for xs, sched, entries in todo:
+            if mk is None:
+                n_h5 = len(list(ck.work.glob("sc*.h5")))
+                cache = HDF5Cache(hdf_file_path=str(ck.work / f"sc{n_h5}.h5"), hdf_node_path="node")
+            else:
+                cache = mk()
+            sig = {"what": "shared_cache", "cache": kind}
+            case = {"cache": kind, "inputs": list(xs), "schedule": [list(s) for s in sched]}
+            if n < 2:
+                ck.sample(case, limit=12)
+            bad = None
+            try:
+                for w, op in sched:
+                    v = xs[w - 1]
+                    if op == "out":
+                        cache.cache_outputs(inp(v), out(v))
+                    elif op == "jac":
+                        cache.cache_jacobian(inp(v), jac(v))
+                    else:
+                        ro, rj = own(cache[inp(v)], v)
+                        if ro not in (0, v) or rj not in (0, v):
+                            bad = f"worker {w} (input {v}) was served another input's data: outputs {ro}, jacobian {rj}"
+                            break
+                if bad is None:
+                    got = []
+                    for e in cache.get_all_entries():
+                        v = int(e.inputs["a"][0])
+                        got.append((v,) + own(e, v))
+                    want = list(entries)
+                    if sorted(got) != sorted(want):
+                        bad = f"final entries impl {sorted(got)} spec {sorted(want)}"
+            except Exception as ex:  # noqa: BLE001
+                bad = f"exception {ex!r}"
+                sig["exception"] = type(ex).__name__
+            if bad:
+                ck.violation("SharedCacheSameAsSequential", sig, dict(case, problem=bad))
+            else:
+                n += 1
+                ck.traces += 1
+    ck.extra["shared_cache_schedules_in_model"] = len(scheds)
+    ck.extra["shared_cache_schedules_replayed"] = n
